@@ -149,6 +149,9 @@ def gen_scenario(rng):
                    "final": {"point": rng.choice(["factory", "factory", "wait.exit", "outputSince.exit", "canConsume.exit"]),
                              "nth": rng.randint(1, 3), "do": ["output", "notify"]}})
         sc["first_output"] = {"at": 0.3}
+    if sc["n_producers"] == 2 and rng.random() < 0.5:
+        # two same-stage producers of which only the first-listed one has output for 6-14 virtual s
+        sc["first_only_producer0"] = rng.choice([6.0, 9.0, 14.0])
     if rng.random() < 0.3:
         sc["extra_outputs"] = [{"at": rng.choice([2.0, 6.0, 11.0])} for _ in range(rng.randint(1, 2))]
     if rng.random() < 0.1:
